@@ -252,6 +252,10 @@ func execD(r *verifsim.Run, conns []*dConn, sched bool) *dResult {
 	conf := &Config{DeviceID: 77, DeviceName: "dev-d", OutputDir: root}
 	frameLogIntervalFirstMin, frameLogInterval = 15, 60*5
 	stallP := r.OneOf(0, 200, 1000, 5000)
+	// slow disk exactly when a connection ends: the writer is held back for a while of simulated time with
+	// whatever is still queued (the reader has returned or is about to)
+	slowEnd := r.Chance(1, 3)
+	slowFor := time.Duration(r.OneOf(500, 2500, 10000, 60000)) * time.Millisecond
 	readerDone := false
 	var pipes []net.Conn
 	bp := bubble(func(t *testing.T) {
@@ -297,7 +301,15 @@ func execD(r *verifsim.Run, conns []*dConn, sched bool) *dResult {
 			for ci, c := range conns {
 				a, b := net.Pipe()
 				pipes = append(pipes, a, b)
-				cam := func() { cameraD(c, b, sched) }
+				cam := func() {
+					cameraD(c, b, sched)
+					if sched && slowEnd {
+						if tk := s.TaskByPrefix("spawn:"); tk != nil {
+							s.StallFor(tk, slowFor)
+							r.Fault("slow-disk-at-connection-end")
+						}
+					}
+				}
 				if sched {
 					s.Go(fmt.Sprintf("camera%d", ci), cam)
 				} else {
